@@ -66,6 +66,22 @@ def make_operands(impl, op, dtype, mode, rng):
     arrs = []
     if mode == "separate":
         return [opcatalog.make_operand(impl, rng, s, dtype) for s in op.operands], None
+    if mode == "zeros":
+        # exact zeros, -0.0 and the boundary values of the operand's domain (0 for pos/any/nonzero, 0 and 1 for prob)
+        arrs = []
+        for spec in op.operands:
+            a = opcatalog.make_operand(impl, rng, spec, dtype)
+            if not spec[1].startswith("labels") and a.size:
+                flat = a.reshape(-1)
+                flat[0] = 0.0
+                if flat.size > 1:
+                    flat[1] = -0.0
+                if flat.size > 2 and spec[1] == "prob":
+                    flat[2] = 1.0
+                if flat.size > 3:
+                    flat[-1] = 0.0
+            arrs.append(a)
+        return arrs, None
     if mode == "overlap":
         tot = max(sizes) + 2 * len(sizes)
         base = base_values(rng, tot, dtype, np)
@@ -119,7 +135,8 @@ def run_op_case(impl, op, dtype, mode, rng, same_twice=False):
     if base is not None:
         before_base = [snap(b) for b in (base if isinstance(base, list) else [base])]
     by0 = snap_t(bystander)
-    out = op.call(ts)
+    with np.errstate(all="ignore"):
+        out = op.call(ts)
     outs = list(out) if op.multi else [out]
     for i, (a, b0) in enumerate(zip(arrs, before)):
         if snap(a) != b0:
@@ -130,8 +147,9 @@ def run_op_case(impl, op, dtype, mode, rng, same_twice=False):
     gs = upstream(impl, outs, dtype, rng)
     g0 = [snap(g.data) for g in gs]
     res_before_bw = [snap(o.data) for o in outs]
-    for o, g in zip(outs, gs):
-        o.backward(g)
+    with np.errstate(all="ignore"):
+        for o, g in zip(outs, gs):
+            o.backward(g)
     for i, (a, b0) in enumerate(zip(arrs, before)):
         if snap(a) != b0:
             probs.append({"phase": "backward", "what": "operand %d data changed" % i, "diff": diff(np, b0, snap(a))})
@@ -355,6 +373,21 @@ def extra_programs(impl):
         return [NF.cross_entropy(logits, labels).mean(), NF.nll_loss(lsm, labels).sum(), NF.binary_cross_entropy(probs, tgt).mean(),
                 NF.binary_cross_entropy_with_logits(logits, tgt).sum(), NF.mse_loss(probs, tgt).mean(), NF.softmax(logits, 0).sum()], [logits, labels, probs, tgt]
 
+    @prog("constants computed under no_grad() from another graph (leaf with grad None, retained intermediate) used in a tracked graph")
+    def p8(dt, rng, T):
+        p = T(np.array([1.0, 2.0, 3.0], dtype=dt), True)               # outside leaf, never differentiated: .grad stays None
+        a = T(np.array([1.0, -2.0, 0.5], dtype=dt), True)              # outside graph with a retained intermediate
+        h = a * 3.0
+        h.retain_grad()
+        h.sum().backward()
+        with sg.no_grad():
+            target = p * 2.0 + h.exp()
+            c = h * 2.0
+        q = T(np.array([4.0, 5.0, 6.0], dtype=dt), True)
+        r = T(np.array([1.0, 1.0, 1.0], dtype=dt), True)
+        d = h.detach() * p.detach()
+        return [((q + (-target)) ** 2).sum(), (r * c).sum(), (q * d + r).sum()], [q, r, "outside", p, a, h]
+
     @prog("layers: conv / pool / batch-norm / linear / dropout on one input used twice")
     def p7(dt, rng, T):
         nn = impl.nn
@@ -388,6 +421,11 @@ def run_extra(ctx, impl, dtype, rng):
             impl.tensor_mod.retain_grads__ = retain
             try:
                 roots, leaves = f(dtype, rng, T)
+                outside = []
+                if "outside" in leaves:
+                    k_ = leaves.index("outside")
+                    outside = leaves[k_ + 1:]; leaves = leaves[:k_] + outside
+                out0 = [snap_t(t) for t in outside]
                 bystander = T(np.ones((2, 2), dtype=dtype), True); bystander._grad = np.full((2, 2), 3.0, dtype=dtype)
                 by0 = snap_t(bystander)
                 data0 = [snap(t.data) for t in leaves]
@@ -412,6 +450,12 @@ def run_extra(ctx, impl, dtype, rng):
                             bad.append({"what": "data of result %d changed" % i, "diff": diff(np, s0, snap(r.data))})
                     if snap_t(bystander) != by0:
                         bad.append({"what": "bystander tensor changed"})
+                    for i, (t, s0) in enumerate(zip(outside, out0)):
+                        s1 = snap_t(t)
+                        if s1 != s0:
+                            bad.append({"what": "tensor %d outside the differentiated graph (behind a no_grad constant) changed: grad %s -> %s"
+                                                % (i, "None" if s0[1] is None else "bytes", "None" if s1[1] is None else ("other bytes" if s1[1] != s0[1] else "same")),
+                                        "grad_after": None if t._grad is None else [float(v) for v in t._grad.reshape(-1)[:4]]})
                     for b in bad:
                         b.update({"program": name, "retain_grads": retain, "after_backward_of_root": k})
                     probs_all += bad
@@ -539,7 +583,7 @@ def run(ctx):
     from lib import opcatalog
     ops = opcatalog.catalog(impl)
     dtypes = (np.float32, np.float64)
-    modes = ("separate", "overlap", "strided")
+    modes = ("separate", "overlap", "strided", "zeros")
     problems, cases, distinct = [], 0, set()
     repeat_bad = []
     spy = KernelSpy(impl)
@@ -563,7 +607,8 @@ def run(ctx):
                             if rec["results"] != rec2["results"] or rec["grads"] != rec2["grads"]:
                                 repeat_bad.append({"op": op.name, "dtype": str(np.dtype(dt)), "mode": mode})
                         except Exception as ex:
-                            probs = [{"phase": "run", "what": "raised %r" % (ex,)}]
+                            # boundary values may legitimately be rejected by the forward; anything else must run
+                            probs = [] if mode == "zeros" else [{"phase": "run", "what": "raised %r" % (ex,)}]
                         for p in probs:
                             p.update({"op": op.name, "dtype": str(np.dtype(dt)), "operands": mode, "same_tensor_twice": same})
                             problems.append(p)
@@ -678,6 +723,21 @@ def random_programs(impl, rng, n):
                 leaves.append(sg.Tensor(arr, requires_grad=True))
             nodes = list(leaves)
             desc = []
+            # tensors of ANOTHER graph, reached only through constants computed under no_grad()
+            outside = []
+            if rng.random() < 0.6:
+                o1 = sg.Tensor(np.array([rng.uniform(-1, 1) for _ in range(6)], dtype=dt).reshape(2, 3), requires_grad=True)
+                o2 = sg.Tensor(np.array([rng.uniform(-1, 1) for _ in range(6)], dtype=dt).reshape(2, 3), requires_grad=True)
+                mid = un[rng.randrange(len(un))](o2)
+                mid.retain_grad()
+                mid.sum().backward()
+                outside = [o1, o2, mid]
+                with sg.no_grad():
+                    const = bi[rng.randrange(3)](un[rng.randrange(len(un))](o1), mid)
+                nodes.append(const); desc.append(("no_grad-const",))
+                if const.requires_grad:
+                    raise AssertionError("value computed under no_grad requires grad")
+            out0 = [snap_t(t) for t in outside]
             for s in range(rng.randint(1, 6)):
                 if rng.random() < 0.5:
                     i = rng.randrange(len(nodes)); f = rng.randrange(len(un))
@@ -687,7 +747,8 @@ def random_programs(impl, rng, n):
                     nodes.append(bi[f](nodes[i], nodes[j])); desc.append(("bi", f, i, j))
             bystander = sg.Tensor(np.ones(3, dtype=dt), requires_grad=True); bystander._grad = np.ones(3, dtype=dt)
             by0 = snap_t(bystander); d0 = [snap(t.data) for t in leaves]; b0 = snap(base)
-            roots = [nodes[rng.randrange(len(leaves), len(nodes))] for _ in range(rng.randint(1, 3))]
+            cand = [t for t in nodes[len(leaves):] if t.requires_grad]
+            roots = [rng.choice(cand) for _ in range(rng.randint(1, 3))] if cand else []
             seeds = []
             for r in roots:
                 g = sg.Tensor(np.array([rng.choice([1.0, -1.0, 0.5, 2.0]) for _ in range(max(1, r.data.size))], dtype=rng.choice([np.float32, np.float64])).reshape(r.shape))
@@ -701,6 +762,10 @@ def random_programs(impl, rng, n):
                     bad = "a caller's gradient changed"
                 elif snap_t(bystander) != by0:
                     bad = "bystander changed"
+                elif [snap_t(t) for t in outside] != out0:
+                    j = [i for i, t in enumerate(outside) if snap_t(t) != out0[i]][0]
+                    bad = "tensor outside the differentiated graph (behind a no_grad constant) changed: %s grad %s -> %s" % (
+                        ["leaf", "leaf", "retained intermediate"][j], "None" if out0[j][1] is None else "bytes", "None" if outside[j]._grad is None else "other bytes")
                 elif any(r2._grad is not None and any(np.shares_memory(r2._grad, g2.data) for g2, _ in seeds) for r2 in nodes):
                     bad = "a gradient buffer shares memory with a caller's gradient"
                 if bad:
